@@ -13,11 +13,12 @@ func init() {
 		Trusted:     []string{"time.Time.In/Hour/Minute/Day/Month/Weekday/Year are correct for every instant and zone"},
 	}
 
+	// (an unmodified range variable reads as the element it copies: tp.Months[i], see copySource)
 	reg("C15", "C15.1", "T1,T8", "ContainsTime: per field a loop over all ranges, match iff value within the range (minutes end-exclusive, others inclusive); unset field skipped; set field without match → false; else true", func(o *Ob) {
 		e := o.E
 		fn := o.Fn("(am/timeinterval.TimeInterval).ContainsTime")
 		T := `phi\(\(time\.Time\)\.In\(p0, &tp:am/timeinterval\.TimeInterval\.Location\.Location\)\|p0\)`
-		V := `&\w+:am/timeinterval\.`
+		V := `&\w+:am/timeinterval\.TimeInterval\.`
 		MIN := `\(\(\(time\.Time\)\.Hour\(` + T + `\) \* 60\) \+ \(time\.Time\)\.Minute\(` + T + `\)\)`
 		type fld struct {
 			name         string
@@ -25,13 +26,13 @@ func init() {
 		}
 		comp := func(m string) string { return `\(time\.Time\)\.` + m + `\(` + T + `\)` }
 		incl := func(m, typ string) (LitM, LitM) {
-			return LRe(`\(`+comp(m)+` < `+V+typ+`\.InclusiveRange\.Begin\)`, false), LRe(`\(`+V+typ+`\.InclusiveRange\.End < `+comp(m)+`\)`, false)
+			return LRe(`\(`+comp(m)+` < `+V+typ+`\[i\]\.InclusiveRange\.Begin\)`, false), LRe(`\(`+V+typ+`\[i\]\.InclusiveRange\.End < `+comp(m)+`\)`, false)
 		}
-		mLo, mHi := incl("Month", "MonthRange")
-		wLo, wHi := incl("Weekday", "WeekdayRange")
-		yLo, yHi := incl("Year", "YearRange")
+		mLo, mHi := incl("Month", "Months")
+		wLo, wHi := incl("Weekday", "Weekdays")
+		yLo, yHi := incl("Year", "Years")
 		flds := []fld{
-			{"Times", LRe(`\(`+MIN+` < `+V+`TimeRange\.StartMinute\)`, false), LRe(`\(`+MIN+` < `+V+`TimeRange\.EndMinute\)`, true)},
+			{"Times", LRe(`\(`+MIN+` < `+V+`Times\[i\]\.StartMinute\)`, false), LRe(`\(`+MIN+` < `+V+`Times\[i\]\.EndMinute\)`, true)},
 			{"Months", mLo, mHi},
 			{"Weekdays", wLo, wHi},
 			{"Years", yLo, yHi},
@@ -70,28 +71,43 @@ func init() {
 			unsetLen := L("(len(&tp:am/timeinterval.TimeInterval."+f.name+") == 0)", true)
 			o.Check(e.CountLitEdges(fn, unset)+e.CountLitEdges(fn, unset.Neg())+e.CountLitEdges(fn, unsetLen)+e.CountLitEdges(fn, unsetLen.Neg()) > 0, "unset-test|"+f.name, "an unset "+f.name+" field must match everything (no test for 'unset' found)", nil)
 		}
-		// returns: 'false' only at a field's exhaustion; final 'true'
-		nTrue := 0
-		for _, ret := range (&Walk{Fn: fn}).FromEntry().Returns() {
-			v := e.X(fn, ret.Results[0])
-			if v == "true" {
-				nTrue++
-				continue
-			}
-			o.Check(v == "false", "ret-shape", "ContainsTime must answer a constant per path, answers "+v, ret)
-			// a false return must be reachable only via some loop's exhaustion edge
-			cut := func(b *ssa.BasicBlock, s int) bool {
-				for _, l := range loops {
-					hx, _ := l.HeaderExit()
-					if b == l.Header && s == hx {
-						return true
-					}
+		// returns (read path by path, so that "return a() && b()" over per-field helpers is the same as the
+		// unrolled form): a constant per path; 'false' only after some field's ranges were exhausted; 'true'
+		// never after an exhaustion
+		exhaust := func(b *ssa.BasicBlock, s int) bool {
+			for _, l := range loops {
+				hx, _ := l.HeaderExit()
+				if b == l.Header && s == hx {
+					return true
 				}
-				return false
 			}
-			o.Check(!(&Walk{Fn: fn, Cut: cut}).FromEntry().Has(ret), "false-unjustified", "ContainsTime can answer false without having exhausted the ranges of a field", ret)
+			return false
 		}
-		o.Check(nTrue == 1, "true-exit", "ContainsTime must answer true exactly when every set field matched", nil)
+		leaves := func(r *Reached) map[string]ssa.Instruction {
+			m := map[string]ssa.Instruction{}
+			for _, ret := range r.Returns() {
+				for _, v := range e.RetVals(r, ret, 0) {
+					m[e.X(fn, v)] = ret
+				}
+			}
+			return m
+		}
+		all := leaves((&Walk{Fn: fn}).FromEntry())
+		for v, ret := range all {
+			o.Check(v == "true" || v == "false", "ret-shape", "ContainsTime must answer a constant per path, answers "+v, ret)
+		}
+		o.Check(all["true"] != nil, "true-exit", "ContainsTime must answer true exactly when every set field matched", nil)
+		if ret := leaves((&Walk{Fn: fn, Cut: exhaust}).FromEntry())["false"]; ret != nil {
+			o.Fail("false-unjustified", "ContainsTime can answer false without having exhausted the ranges of a field", ret)
+		}
+		for name, l := range loops {
+			hx, _ := l.HeaderExit()
+			if ret := leaves((&Walk{Fn: fn}).FromEdge(l.Header, hx))["true"]; ret != nil {
+				o.Fail("exhausted-true|"+name, "ContainsTime can answer true although no range of the set field "+name+" contains the time", ret)
+			}
+		}
+		o.Checks += 2
+		o.Passed += 2
 		o.MinSites(5)
 	})
 
@@ -141,10 +157,9 @@ func init() {
 			if strings.Contains(a0, ".End") {
 				which = "End"
 			}
-			want := "phi(&validDates:am/timeinterval.DayOfMonthRange.InclusiveRange." + which + "|((" + dim + " + &validDates:am/timeinterval.DayOfMonthRange.InclusiveRange." + which + ") + 1))"
-			alt := strings.Replace(want, "&validDates:", "&", 1)
-			_ = alt
-			o.Check(regexpMatch(regexpQuote(want), a0) || regexpMatch(strings.ReplaceAll(regexpQuote(want), "validDates", `\w+`), a0), "negative-formula|"+which, "a negative "+which+" must count from the month's end as daysInMonth + v + 1, the clamped value is "+a0, c)
+			v := "&tp:am/timeinterval.TimeInterval.DaysOfMonth[i].InclusiveRange." + which
+			want := "phi(" + v + "|((" + dim + " + " + v + ") + 1))"
+			o.Check(a0 == want, "negative-formula|"+which, "a negative "+which+" must count from the month's end as daysInMonth + v + 1, the clamped value is "+a0, c)
 			o.Check(e.Arg(c, 2) == dim && (e.Arg(c, 1) == "(-1 * "+dim+")" || e.Arg(c, 1) == "-"+dim), "clamp-bounds|"+which, "the bound must be clamped to ±daysInMonth", c)
 		}
 		dm := o.Fn("am/timeinterval.daysInMonth")
@@ -185,7 +200,8 @@ func init() {
 				o.Check(!loopBackWithout(o, inner, IsInstr(p.Call), e.CutContradicting(L(e.X(fn, ct.(*ssa.Call)), true))), "in-forced", "a containing interval is not reported", p.Call)
 			}
 			v0 := e.X(fn, ret.Results[0])
-			o.Check(strings.HasPrefix(v0, "(len(acc(") && strings.HasSuffix(v0, ") > 0)"), "verdict", "muted must be 'at least one interval contains now', is "+v0, ret)
+			vl := e.CondLit(fn, ret.Results[0])
+			o.Check(!vl.Pos && strings.HasPrefix(vl.Atom, "(len(acc(") && strings.HasSuffix(vl.Atom, ") == 0)"), "verdict", "muted must be 'at least one interval contains now', is "+v0, ret)
 		}
 		// undefined name → error
 		r := (&Walk{Fn: fn, Cut: e.CutContradicting(known.Neg())}).FromEntry()
